@@ -93,9 +93,27 @@ func classify(k []byte) string {
 	}
 	switch k[0] {
 	case 0:
+		if len(k) > 1 {
+			switch k[1] {
+			case 1:
+				return "R2U"
+			case 2:
+				return "V2U"
+			case 3:
+				return "IDS"
+			case 4:
+				return "REPO"
+			case 5:
+				return "FMT"
+			case 7:
+				return "MUT"
+			}
+		}
 		return "metadata"
-	default:
+	case 1:
 		return "data"
+	default:
+		return "blob"
 	}
 }
 
